@@ -30,6 +30,10 @@ type c08Hand struct {
 	Len    int    `json:"length"`
 	End    byte   `json:"ending"`
 	SlowUs []int  `json:"consumer_delay_us"` // per item, cycled
+	// CancelAt > 0: the subscription context is cancelled just before the source issues
+	// its notification #CancelAt (Len+1 = the terminal). The source is not context-aware
+	// and goes on: a hand-off operator still owes FIFO delivery and the terminal.
+	CancelAt int `json:"cancel_context_at,omitempty"`
 }
 
 func init() {
@@ -177,6 +181,8 @@ func c08RunHand(t rt.TB, c c08Hand) {
 	}
 	var returned, consumed int64
 	maxLead := int64(0)
+	subCtx, cancelSub := context.WithCancel(context.Background())
+	defer cancelSub()
 	sample := func() {
 		lead := atomic.LoadInt64(&returned) - atomic.LoadInt64(&consumed)
 		for {
@@ -188,9 +194,15 @@ func c08RunHand(t rt.TB, c c08Hand) {
 	}
 	src := ro.NewObservableWithContext(func(ctx context.Context, d ro.Observer[int]) ro.Teardown {
 		for i := 1; i <= c.Len; i++ {
+			if c.CancelAt == i {
+				cancelSub()
+			}
 			d.NextWithContext(ctx, i)
 			atomic.AddInt64(&returned, 1)
 			sample()
+		}
+		if c.CancelAt == c.Len+1 {
+			cancelSub()
 		}
 		switch c.End {
 		case 'C':
@@ -233,7 +245,7 @@ func c08RunHand(t rt.TB, c c08Hand) {
 				finish()
 			}
 		}
-		go op(src).Subscribe(rec)
+		go op(src).SubscribeWithContext(subCtx, rec)
 		if c.End == 0 {
 			// no terminal: wait until every value has been consumed
 			deadline := time.Now().Add(20 * time.Second)
@@ -266,7 +278,7 @@ func c08RunHand(t rt.TB, c c08Hand) {
 				chCh <- v.(<-chan ro.Notification[int])
 			}
 		}
-		sub := ro.ToChannel[int](c.Cap)(src).Subscribe(rec)
+		sub := ro.ToChannel[int](c.Cap)(src).SubscribeWithContext(subCtx, rec)
 		ch := <-chCh
 		n := 0
 		if c.End == 0 && c.Len == 0 {
@@ -341,9 +353,13 @@ func TestC08_HandOff(t *testing.T) {
 						if !rt.Mine(idx) {
 							continue
 						}
-						c := c08Hand{Op: op, Cap: cp, Len: l, End: end, SlowUs: slow}
-						c08RunHand(t, c)
-						rt.Case(caseKey("hand", op, cp, l, end, slow), l > cp && slow[len(slow)-1] > 0, "handoff:"+op, func() any { return c })
+						for _, cancelAt := range []int{0, 1, l, l + 1} {
+							if cancelAt == 0 || (cancelAt >= 1 && (cancelAt != 1 || l >= 1) && (cancelAt != l || l > 1)) {
+								c := c08Hand{Op: op, Cap: cp, Len: l, End: end, SlowUs: slow, CancelAt: cancelAt}
+								c08RunHand(t, c)
+								rt.Case(caseKey("hand", op, cp, l, end, slow, cancelAt), l > cp && slow[len(slow)-1] > 0, "handoff:"+op, func() any { return c })
+							}
+						}
 					}
 				}
 			}
@@ -355,6 +371,9 @@ func TestC08_HandOff(t *testing.T) {
 		l := rapid.IntRange(0, 3*cp+3).Draw(t, "len")
 		slow := rapid.SliceOfN(rapid.SampledFrom([]int{0, 0, 50, 400, 1200}), 1, 5).Draw(t, "slow")
 		c := c08Hand{Op: op, Cap: cp, Len: l, End: rapid.SampledFrom([]byte{'C', 'E', 0}).Draw(t, "end"), SlowUs: slow}
+		if rapid.Bool().Draw(t, "cancelContext") {
+			c.CancelAt = rapid.IntRange(1, l+1).Draw(t, "cancelAt")
+		}
 		c08RunHand(t, c)
 		stall := false
 		for _, s := range slow {
@@ -362,6 +381,6 @@ func TestC08_HandOff(t *testing.T) {
 				stall = true
 			}
 		}
-		rt.Case(caseKey("hand", op, cp, l, c.End, slow), l > cp && stall, "handoff:"+op, func() any { return c })
+		rt.Case(caseKey("hand", op, cp, l, c.End, slow, c.CancelAt), l > cp && stall, "handoff:"+op, func() any { return c })
 	})
 }
